@@ -89,6 +89,13 @@ func indexCase(k *engine.Case) {
 		}
 		// ---- hash route
 		if key.hashable {
+			if r.Intn(4) == 0 {
+				// a caller builds a composite key on top of the key's bytes; whatever it appends
+				// must not change how keys hash afterwards
+				if p := tryDo(func() { _ = append(remap.ToBytes(key.v), 0xA5, 0x5A, 0xA5, 0x5A) }); p == nil {
+					k.Count("idx_tobytes_appended", 1)
+				}
+			}
 			x1 := rm.XHashIndex(key.v)
 			x2 := rm.XHashIndex(key.v)
 			o.xhash = x1
@@ -388,4 +395,10 @@ func partitionCase(k *engine.Case) {
 	if n > 1 {
 		k.Nontrivial()
 	}
+}
+
+func tryDo(f func()) (p any) {
+	defer func() { p = recover() }()
+	f()
+	return nil
 }
